@@ -1,6 +1,7 @@
 package main
 
 import (
+	"os"
 	"fmt"
 	"go/ast"
 	"go/token"
@@ -367,6 +368,9 @@ func (c *Ctx) execBodyPaths(iter *State, lp loopParts, ls *LoopSpec, ord int, ha
 		c.pathMode = pe
 		bo := c.execBlock(iter.clone(), lp.body)
 		c.pathMode = nil
+		if os.Getenv("GOVC_VERBOSE") != "" {
+			fmt.Fprintf(os.Stderr, "split-paths loop%d run %d: decisions %v normal-dead=%v\n", ord, runs, pe.choices, bo.normal == nil || bo.normal.dead())
+		}
 		// alternatives: every default ("then") decision made beyond the prefix can be flipped
 		for k := len(pe.choices) - 1; k >= len(prefix); k-- {
 			alt := append(append([]bool{}, pe.choices[:k]...), false)
